@@ -81,6 +81,12 @@ pub fn forge(
             (serde_json::from_value(v).unwrap(), true, false)
         }
         "foreign_ns" => (w.signed_in(&w.other_ns[0], a, k, ts, h, len), false, true),
+        "foreign_ns_oursig" => {
+            // the identifier names another document, the namespace signature was made with THIS document's secret
+            // (any writer of this document can produce it), the author signature is genuine
+            let id = RecordIdentifier::new(w.other_ns[0].id(), w.author(a).id(), k);
+            (Entry::new(id, rec()).sign(&w.ns, w.author(a)), false, false)
+        }
         "noncurve_author" => {
             let id = RecordIdentifier::new(w.ns.id(), non_curve_point(), k);
             (Entry::new(id, rec()).sign(&w.ns, w.author(a)), true, false)
@@ -570,6 +576,7 @@ pub const CLASSES: &[&str] = &[
     "swapped",
     "othersig",
     "foreign_ns",
+    "foreign_ns_oursig",
     "noncurve_author",
     "flip_ts",
     "flip_len",
